@@ -36,6 +36,7 @@ func runC14(c *Ctx, r *Report) {
 	c14Tables(c, r, "C14.R8")
 	c14DNSNameCase(c, r, "C14.R19")
 	c14ListsProvisioned(c, r, "C14.R20")
+	c14KeyDirection(c, r, "C14.R21")
 	c14Siblings(c, r, "C14.R9")
 	c14Transport(c, r, "C14.R10")
 	c14Headers(c, r, "C14.R11")
